@@ -157,6 +157,13 @@ CLAIMED = {
         "Sessions are seeded samples of the model (exhaustive only for the small role-1 model); real timing is "
         "guarded by a 10x slower re-run before a disagreement is reported.",
         "6/C19"),
+    "C20": (
+        "TLA+ spec Concurrent.tla (call/linearise/return on an LWW store) model-checked; histories recorded from concurrent "
+        "clients of a real instance (-race build) validated by TLC against Trace_Concurrent.tla",
+        "Interleavings are exhaustive in the model; on the code many seeded concurrent runs are recorded and each is validated "
+        "completely (visibility, monotonic reads, replies, final content, hashes, shutdown, re-open, race detector).",
+        "The Go scheduler picks the real interleavings; 12 identities on 3 nodes; races are only seen if they occur.",
+        "6/C20"),
 }
 
 NOT_YET = "check not built yet in this round (planned, see DESIGN.md section 6)"
